@@ -73,6 +73,8 @@ func main() {
 		os.Exit(instancesCmd(os.Args[2:]))
 	case "jpgas":
 		os.Exit(jpgasCmd(os.Args[2:]))
+	case "fuzz":
+		os.Exit(fuzzCmd(os.Args[2:]))
 	case "keytree":
 		os.Exit(keytreeCmd(os.Args[2:]))
 	}
